@@ -306,7 +306,13 @@ func genVector(r *rng, k int, big bool) (vec string, class string, sh vecShape) 
 		toks = append(toks[:i:i], append([]string{""}, toks[i:]...)...)
 		class = "empty-token"
 	case 9:
-		toks[0] = pick(r, []string{"CVSS:3.2", "CVSS:2.0", "CVSS:3", "CVSS:3.1.0", "cvss:3.1", "CVSS3.1", "CVSS:", ":3.1", "CVSS:3.0:3.1", "CVSS:4.0"}) + func() string {
+		pfx := pick(r, []string{"CVSS:3.2", "CVSS:2.0", "CVSS:3", "CVSS:3.1.0", "cvss:3.1", "CVSS3.1", "CVSS:", ":3.1", "CVSS:3.0:3.1", "CVSS:4.0"})
+		if r.chance(1, 2) {
+			// version numbers as a numeric parser might (mis)read them: signs, leading
+			// zeros, exponents, overflow, other digit scripts, stray dots
+			pfx = "CVSS:" + pick(r, versionNumberShapes)
+		}
+		toks[0] = pfx + func() string {
 			if kindIsV2(k) {
 				return "/" + toks[0]
 			}
@@ -400,6 +406,14 @@ func genVector(r *rng, k int, big bool) (vec string, class string, sh vecShape) 
 // genAbortVector builds an input whose decode fails after part of the receiver
 // has been filled in: a bad value in an optional metric, a duplicate or an
 // unsupported metric at the end, a missing base metric, a misordered v2 vector.
+var versionNumberShapes = []string{
+	"3.-1", "3.+1", "3.-0", "3.+0", "-3.1", "+3.1", "-3.0", "3.01", "3.00", "03.1", "03.0", "3.10", "3.11", "3.9", "3.2",
+	"3.1e0", "3e0.1", "3.0x1", "0x3.1", "3.1_0", "3_0.1", "3. 1", " 3.1", "3.1 ", "3..1", "3.", ".1", ".", "3,1", "3.1.", "3.-",
+	"3.99999999999999999999", "3.4294967297", "3.18446744073709551617", "3.-2147483648", "3.-9223372036854775808", "4294967299.1",
+	"3.\u0661", "\uff13.1", "3.\uff11", "\u0663.\u0661", "3.\u00b9", "3.1\x00", "3.\x001", "3.0\u200b", "3.1\ufeff", "3.1:", "3.1:0",
+	"3.a", "3.A", "3.x", "3.N", "III.I", "3.١", "NaN.1", "3.Inf", "1e1000.0",
+}
+
 func genAbortVector(r *rng, k int) (string, string) {
 	v, _ := genValidVector(r, k)
 	toks := strings.Split(v, "/")
